@@ -36,11 +36,10 @@ var (
 var ErrBranchReportResponseFault = errors.New("branch report response fault")
 
 func GetRMRemotingInstance() *RMRemoting {
-	if rmRemoting == nil {
-		onceGettyRemoting.Do(func() {
-			rmRemoting = &RMRemoting{}
-		})
-	}
+	// (no unsynchronised nil check in front of the Once: that read races with the initialisation)
+	onceGettyRemoting.Do(func() {
+		rmRemoting = &RMRemoting{}
+	})
 	return rmRemoting
 }
 
